@@ -44,9 +44,10 @@ def _install_asyncio_watch():
     import asyncio.tasks as tasks  # noqa: PLC0415
 
     targets = [(asyncio, n) for n in ("get_running_loop", "get_event_loop", "new_event_loop", "ensure_future", "create_task", "sleep",
-                                      "shield", "wait_for", "gather", "wrap_future", "run_coroutine_threadsafe", "to_thread", "wait")]
+                                      "shield", "wait_for", "gather", "wrap_future", "run_coroutine_threadsafe", "to_thread", "wait",
+                                      "current_task", "all_tasks", "timeout", "timeout_at", "get_event_loop_policy")]
     targets += [(ev, n) for n in ("get_running_loop", "get_event_loop", "_get_running_loop", "new_event_loop")]
-    targets += [(tasks, n) for n in ("ensure_future", "create_task", "sleep", "shield", "wait_for", "gather")]
+    targets += [(tasks, n) for n in ("ensure_future", "create_task", "sleep", "shield", "wait_for", "gather", "current_task", "all_tasks")]
     for mod, name in targets:
         orig = getattr(mod, name, None)
         if orig is None or getattr(orig, "_verif_watch", False):
